@@ -70,7 +70,7 @@ ASSUMPTIONS = ['"retained state" is read as: the socket object is reachable from
                'the handler used by the probe never fails, so every 4xx/5xx stems from the HTTP layer']
 PROBES = ['fault:short_read', 'fault:piecewise_arrival', 'fault:truncation', 'fault:peer_close', 'fault:peer_abort', 'fault:peer_half_close', 'multi-conn',
           'prefix-request', 'outcome:wait', 'outcome:2xx', 'outcome:4xx', 'outcome:5xx', 'outcome:closed-silently', 'canary-ok', 'disconnect-mid-message',
-          'must-reject-op', 'request-event', 'label-checked']
+          'must-reject-op', 'request-event', 'label-checked', 'same-connection-follow-up']
 TIERS = {
     'quick': dict(runs=90000, wall=33, chunk=100, cfg=dict(max_conns=3, big=1)),
     'thorough': dict(runs=1500000, wall=600, chunk=400, cfg=dict(max_conns=3, big=4)),
@@ -500,6 +500,7 @@ class Conn:
         self.truncated = False
         self.reading = True
         self.cap = None
+        self.follow_up_ok = None     # set by _judge: the answer after which the server kept the connection open
 
 
 def run_one(ctx):
@@ -725,6 +726,28 @@ def _run(ctx):
             break
         _judge(ctx, c, fail)
 
+    # ---- a connection the server left open after one complete answer that does not announce close is as good as new: a well-formed request
+    #      on it is dispatched once and answered by the handler ("for any byte sequence received on a connection": message + further request)
+    for c in conns:
+        if st['viol']:
+            break
+        if not (c.follow_up_ok and c.peer is not None and not c.peer.closed and not c.peer.eof and not c.peer.reset):
+            continue
+        ctx.stat('same-connection-follow-up')
+        before, nreq = len(c.peer.inp), c.requests
+        pol.caps.pop(c.peer.local, None)
+        c.peer.send(CANARY)
+        quiesce()
+        if st['viol']:
+            break
+        rs, rest, err = G.parse_responses(bytes(c.peer.inp[before:]))
+        ok = len(rs) == 1 and not rest and not err and rs[0].first[1] == 200 and rs[0].body == BODY.encode() and c.requests == nreq + 1
+        ctx.trace('  conn %d: well-formed request on the connection the server kept open -> %s' % (c.idx, 'served' if ok else 'NOT served'))
+        if not ok:
+            fail('C14/follow-up-on-kept-connection/after-%s' % c.op, 'connection %d: the server answered %s with one complete response (%s) and kept the connection open; '
+                 'a well-formed request sent on it afterwards got %d request event(s) and the answer %s' % (
+                     c.idx, c.op, c.follow_up_ok, c.requests - nreq, _short(bytes(c.peer.inp[before:]), 200)))
+
     # ---- R5: canary on a fresh connection
     if not st['viol']:
         cp = Peer()
@@ -841,5 +864,8 @@ def _judge(ctx, c, fail):
         if statuses and statuses[0] < 400:
             fail('C14/must-reject-served/%s' % tag, 'connection %d: answered %r to %s' % (c.idx, statuses, _short(c.raw, 200)))
             return
+    if (c.single and len(mine) == 1 and not rest and not server_closed and not peer_gone and c.end == 'keep' and not c.truncated
+            and not G.announces_close(mine[0]) and statuses[0] >= 200):
+        c.follow_up_ok = 'status %d' % statuses[0]
     if c.single and nreq > 0 and any(400 <= s < 500 or s == 505 for s in statuses) and len(mine) == 1:
         fail('C14/request-event-for-rejected/%s' % tag, 'connection %d: the message was dispatched as a request event and answered %r' % (c.idx, statuses))
